@@ -21,30 +21,30 @@ const tokenADD = token.ADD
 func runtimeStack(buf []byte) int { return runtime.Stack(buf, false) }
 
 type Config struct {
-	MaxSteps     int
-	Unwind       int
-	MaxMakeSlice int
-	StubPkgs     []string
-	RealPkgs     []string // exceptions to StubPkgs prefixes
-	InitPkgs     []string
-	ModelFor     map[string]*ssa.Function
-	Workers      int
-	SolverBin    string
+	MaxSteps        int
+	Unwind          int
+	MaxMakeSlice    int
+	StubPkgs        []string
+	RealPkgs        []string // exceptions to StubPkgs prefixes
+	InitPkgs        []string
+	ModelFor        map[string]*ssa.Function
+	Workers         int
+	SolverBin       string
 	SolverTimeoutMs int
-	MaxPaths     int
-	MaxWall      time.Duration
-	Seed         int
-	MaxPreempt   int
-	MapOrderAll  bool
-	SymbolicNow  bool
-	AllowPanic   bool
-	CoverModels  bool
-	DumpSMT      string
-	AbstractTime bool
-	NoSlice      bool
-	NoPOR        bool
-	Debug        bool
-	NoRace       bool
+	MaxPaths        int
+	MaxWall         time.Duration
+	Seed            int
+	MaxPreempt      int
+	MapOrderAll     bool
+	SymbolicNow     bool
+	AllowPanic      bool
+	CoverModels     bool
+	DumpSMT         string
+	AbstractTime    bool
+	NoSlice         bool
+	NoPOR           bool
+	Debug           bool
+	NoRace          bool
 }
 
 type PathOpts struct {
@@ -259,29 +259,29 @@ func decodeSymVar(sv *symVar, m Model) interface{} {
 // ---------- exploration ----------
 
 type HarnessResult struct {
-	Harness    string                       `json:"harness"`
-	Paths      int                          `json:"paths"`
-	Ends       map[string]int               `json:"ends"`
-	EndMsgs    map[string]string            `json:"end_msgs"`
-	Asserts    map[string]int               `json:"asserts_discharged"`
-	Concrete   map[string]int               `json:"asserts_concrete"`
-	Covers     []string                     `json:"covers"`
+	Harness     string                            `json:"harness"`
+	Paths       int                               `json:"paths"`
+	Ends        map[string]int                    `json:"ends"`
+	EndMsgs     map[string]string                 `json:"end_msgs"`
+	Asserts     map[string]int                    `json:"asserts_discharged"`
+	Concrete    map[string]int                    `json:"asserts_concrete"`
+	Covers      []string                          `json:"covers"`
 	CoverModels map[string]map[string]interface{} `json:"cover_models,omitempty"`
-	Violations []*Violation                 `json:"violations"`
-	Unknown    []string                     `json:"unknown"`
-	Notes      []string                     `json:"notes"`
-	Complete   bool                         `json:"complete"`
-	Queries    int                          `json:"solver_queries"`
-	Sat        int                          `json:"solver_sat"`
-	Unsat      int                          `json:"solver_unsat"`
-	UnknownQ   int                          `json:"solver_unknown"`
-	SolverSec  float64                      `json:"solver_s"`
-	WallSec    float64                      `json:"wall_s"`
-	Steps      int                          `json:"ssa_instructions_executed"`
-	SolverErrs []string                     `json:"solver_errors"`
-	Functions  []string                     `json:"functions_executed"`
-	Decisions  int                          `json:"max_decisions"`
-	Wins       map[string]int               `json:"solver_wins"`
+	Violations  []*Violation                      `json:"violations"`
+	Unknown     []string                          `json:"unknown"`
+	Notes       []string                          `json:"notes"`
+	Complete    bool                              `json:"complete"`
+	Queries     int                               `json:"solver_queries"`
+	Sat         int                               `json:"solver_sat"`
+	Unsat       int                               `json:"solver_unsat"`
+	UnknownQ    int                               `json:"solver_unknown"`
+	SolverSec   float64                           `json:"solver_s"`
+	WallSec     float64                           `json:"wall_s"`
+	Steps       int                               `json:"ssa_instructions_executed"`
+	SolverErrs  []string                          `json:"solver_errors"`
+	Functions   []string                          `json:"functions_executed"`
+	Decisions   int                               `json:"max_decisions"`
+	Wins        map[string]int                    `json:"solver_wins"`
 }
 
 type Explorer struct {
